@@ -16,8 +16,9 @@ from harness import workerh as H
 NT = tier(3, 4)                # tasks in the script
 SIGNUMS = sorted(n for n in (bc.signum(s) for s in bc.TERMSIGS_FULL) if n)
 MAXPOINT = 36 * (NT - 1)
-KSYN = tier(1, 3)
-SILENT = tier(0, 2)
+KSYN = tier(1, 2)
+SILENT = tier(0, 1)
+SLOW = tier(70, 130)            # silent SYN polls before the parent's answer in h_synack_slow (the loop logs at 60)
 
 
 def _protocol(kinds, maxtasks, syn, silence, consumed, mem, want):
@@ -79,6 +80,10 @@ def _protocol(kinds, maxtasks, syn, silence, consumed, mem, want):
                 return fail('C12:exception-not-reported-on-its-job')
             if kind == 2 and not (succ is False and val.type is H.TaskBase):
                 return fail('C12:base-exception-not-reported-on-its-job')
+            if kind == 4 and not (succ is False and val.type is SystemExit and val.exception.exc.args == (3,)):
+                return fail('C02:SystemExit-raised-by-the-task-not-reported-as-its-error')
+            if kind == 5 and not (succ is False and val.type is KeyboardInterrupt):
+                return fail('C02:KeyboardInterrupt-raised-by-the-task-not-reported-as-its-error')
             if kind == 3 and not (succ is False and val.type is bp.MaybeEncodingError):
                 return fail('C12:unserialisable-result-not-reported-as-encoding-error')
     # how the loop ended
@@ -160,7 +165,11 @@ def h_protocol_twin(code: int) -> bool:
 
 def _syn_args(code):
     nd = NDCode(code)
-    syn = [PART % 2, (PART // 2) % 2] + [nd.draw(0, 1) for _ in range(NT - 2)] if NPART > 1 else [nd.draw(0, 1) for _ in range(NT)]
+    if NPART > 1:
+        nfix = 4 if NPART == 16 else 2          # the first answers (ACK/NACK) are fixed by the part
+        syn = [(PART >> b) & 1 for b in range(nfix)] + [nd.draw(0, 1) for _ in range(NT - nfix)]
+    else:
+        syn = [nd.draw(0, 1) for _ in range(NT)]
     kinds = _kinds(nd, NT, KSYN)
     silence = [nd.draw(0, 2)] + [nd.draw(0, SILENT) for _ in range(NT - 1)]
     return kinds, nd.draw(0, NT), syn, silence
@@ -186,6 +195,69 @@ def h_synack_twin(code: int) -> bool:
     try:
         kinds, maxtasks, syn, silence = _syn_args(code)
         return _protocol(kinds, maxtasks, syn, silence, NT, None, 'nack')
+    except Prune:
+        return True
+
+
+def _slow(code, wait, want):
+    """the parent answers the first job's ACK only after `wait` silent polls (any number: the statement puts no deadline on the
+    handshake); a second job follows with its own prompt answer, so an abandoned first job or an answer consumed by the wrong
+    job shows in the grammar"""
+    nd = NDCode(code)
+    syn = [nd.draw(0, 1), nd.draw(0, 1)]
+    kinds = [nd.draw(0, 1), nd.draw(0, 1)]
+    if want == 'late' and wait != _slow_range()[1]:
+        return True
+    r = _protocol(kinds, nd.draw(0, 2), syn, [wait, 0], 2, None, None)
+    if want == 'late' and r:
+        return False
+    return r
+
+
+def _slow_range():
+    # the part's share of 0..SLOW (the last part reaches beyond the loop's 60-poll warning)
+    return PART * (SLOW + 1) // NPART, (PART + 1) * (SLOW + 1) // NPART - 1
+
+
+def _slow_pre(wait):
+    lo, hi = _slow_range()
+    return lo <= wait <= hi
+
+
+def h_synack_slow(code: int, wait: int) -> bool:
+    """
+    pre: 0 <= code < CODEMAX and _slow_pre(wait)
+    post: _
+    """
+    try:
+        return _slow(code, wait, None)
+    except Prune:
+        return True
+
+
+def h_synack_slow_twin(code: int, wait: int) -> bool:
+    """
+    pre: 0 <= code < CODEMAX and _slow_pre(wait)
+    post: _
+    """
+    try:
+        return _slow(code, wait, 'late')
+    except Prune:
+        return True
+
+
+def h_sysexit(code: int) -> bool:
+    """
+    pre: 0 <= code < CODEMAX
+    post: _
+    """
+    # a task that itself raises SystemExit / KeyboardInterrupt (no termination signal): an exception of the task like any other -
+    # one READY(False, record of that exception) for its job, the worker goes on with the next job
+    try:
+        nd = NDCode(code)
+        pos = nd.draw(0, NT - 1)
+        kinds = [(4 + nd.draw(0, 1)) if j == pos else nd.draw(0, 1) for j in range(NT)]
+        return _protocol(kinds, nd.draw(0, NT), None, None, NT, None, None)
     except Prune:
         return True
 
